@@ -394,7 +394,7 @@ Proof.
   split; [eexists; split; [right; right; left; reflexivity|reflexivity]|reflexivity].
 Qed.
 
-(** ** fetch_pkg_enums *)
+(** ** fetch_pkg_enums_raw *)
 Definition const_wf (c : cdecl) : Prop := exists v, In v (c_cands c) /\ nkind_eqb (cd_kind v) NValueSpec = true.
 
 Lemma enclosing_some c : const_wf c -> fetch_const_comment c = Ok (c_comment c).
@@ -449,11 +449,11 @@ Proof.
   - intro id. rewrite add_all_assoc. simpl. apply entries_filter. assumption.
 Qed.
 
-Lemma fetch_pkg_enums_ok types p : exists es, fetch_pkg_enums types p = Ok es.
-Proof. unfold fetch_pkg_enums. rewrite collect_entries. simpl. eexists. reflexivity. Qed.
+Lemma fetch_pkg_enums_ok types p : exists es, fetch_pkg_enums_raw types p = Ok es.
+Proof. unfold fetch_pkg_enums_raw. rewrite collect_entries. simpl. eexists. reflexivity. Qed.
 
 Lemma fetch_pkg_enums_spec types p es :
-  Forall const_wf (p_consts p) -> fetch_pkg_enums types p = Ok es ->
+  Forall const_wf (p_consts p) -> fetch_pkg_enums_raw types p = Ok es ->
   NoDup (map en_id es) /\
   (forall id, In id (map en_id es) <-> spec_members (p_consts p) id <> []) /\
   (forall e, In e es ->
@@ -464,7 +464,7 @@ Lemma fetch_pkg_enums_spec types p es :
         type_is_integer types (en_id e) = true /\
         exported_int64 (en_members e) = map Some (zseq 0 (List.length (filter em_exported (en_members e)))))).
 Proof.
-  intros Hwf H. unfold fetch_pkg_enums in H.
+  intros Hwf H. unfold fetch_pkg_enums_raw in H.
   destruct (collect (p_consts p) []) as [tbl| |] eqn:Hc; simpl in H; try discriminate.
   inversion H; subst es. clear H.
   destruct (collect_table _ _ Hwf Hc) as [Hu [Hk Ha]].
@@ -481,11 +481,11 @@ Proof.
 Qed.
 
 Lemma fetch_pkg_enums_flag types p es e :
-  Forall const_wf (p_consts p) -> fetch_pkg_enums types p = Ok es -> In e es ->
+  Forall const_wf (p_consts p) -> fetch_pkg_enums_raw types p = Ok es -> In e es ->
   en_is_iota e = snd (set_is_iota (type_is_integer types (en_id e))
                         (map (fun c => member_of c (c_comment c)) (spec_members (p_consts p) (en_id e)))).
 Proof.
-  intros Hwf H He. unfold fetch_pkg_enums in H.
+  intros Hwf H He. unfold fetch_pkg_enums_raw in H.
   destruct (collect (p_consts p) []) as [tbl| |] eqn:Hc; simpl in H; try discriminate.
   inversion H; subst es. clear H.
   destruct (collect_table _ _ Hwf Hc) as [Hu [Hk Ha]].
@@ -501,11 +501,30 @@ Proof.
   rewrite IH. simpl. eexists. reflexivity.
 Qed.
 
+Lemma merge_all_ok (l : list (result (list enum))) :
+  Forall (fun r => exists x, r = Ok x) l -> forall acc, exists x, merge_all l acc = Ok x.
+Proof.
+  induction 1 as [|r rest [x ->] Hr IH]; intros acc; simpl; [eexists; reflexivity|]. apply IH.
+Qed.
+
+Lemma merge_all_in (l : list (result (list enum))) : forall acc x e,
+  merge_all l acc = Ok x -> In e x -> In e acc \/ exists y, In (Ok y) l /\ In e y.
+Proof.
+  induction l as [|r rest IH]; intros acc x e H Hin; simpl in H.
+  - inversion H; subst. left. exact Hin.
+  - destruct r as [a| |]; simpl in H; try discriminate.
+    destruct (IH _ _ _ H Hin) as [Hm | [y [Hy He]]].
+    + unfold merge_enums in Hm. apply in_app_iff in Hm. destruct Hm as [Hm | Hm].
+      * apply filter_In in Hm. left. exact (proj1 Hm).
+      * right. exists a. split; [left; reflexivity | exact Hm].
+    + right. exists y. split; [right; exact Hy | exact He].
+Qed.
+
 Lemma fetch_enums_ok pr : exists es, fetch_enums pr = Ok es.
 Proof.
-  unfold fetch_enums. apply concat_results_ok. rewrite Forall_forall. intros r Hr.
+  unfold fetch_enums. apply merge_all_ok. rewrite Forall_forall. intros r Hr.
   apply in_map_iff in Hr. destruct Hr as [path [<- _]].
-  destruct (find_pkg path (pr_pkgs pr)); [apply fetch_pkg_enums_ok|eexists; reflexivity].
+  destruct (find_pkg path (pr_pkgs pr)); [unfold fetch_pkg_enums; apply fetch_pkg_enums_ok|eexists; reflexivity].
 Qed.
 
 Lemma concat_results_in {A} (l : list (result (list A))) x e :
@@ -523,9 +542,9 @@ Qed.
 (** every enum of the walk comes from the constants of one selected package *)
 Lemma fetch_enums_origin pr es e : fetch_enums pr = Ok es -> In e es ->
   exists path p pes, In path (selected_pkgs pr) /\ find_pkg path (pr_pkgs pr) = Some p /\
-    fetch_pkg_enums (pr_types pr) p = Ok pes /\ In e pes.
+    fetch_pkg_enums_raw (pr_types pr) (own_pkg (pr_types pr) p) = Ok pes /\ In e pes.
 Proof.
-  intros H He. unfold fetch_enums in H. destruct (concat_results_in _ _ _ H He) as [y [Hy Hin]].
+  intros H He. unfold fetch_enums, fetch_pkg_enums in H. destruct (merge_all_in _ _ _ _ H He) as [[] | [y [Hy Hin]]].
   apply in_map_iff in Hy. destruct Hy as [path [Hr Hp]].
   destruct (find_pkg path (pr_pkgs pr)) as [p|] eqn:F.
   - exists path, p, y. auto.
